@@ -426,3 +426,15 @@ package cisco
 //vc:func postprocessACLParts$4
 //vc:  inline
 //vc:  ensures[C01,C02] @objectGroupWordsConsumed len(parts) == ite(old(len(parts)) >= 2, old(len(parts)) - 2, 0)
+
+// alignVRFs: every interface and route of the device is either kept for the
+// comparison (its VRF is one Netspoc configures) or protected - what it refers
+// to is marked as needed, so that deleteUnused leaves the ACLs of interfaces in
+// VRFs unknown to Netspoc alone. None is dropped without protection.
+//vc:ghost var vrfEntryAtHand *cmd
+//vc:ghost var vrfEntryHandled *cmd
+//vc:func (*State).alignVRFs
+//vc:  assign after "vrf := p.get(c)" vrfEntryAtHand = c
+//vc:  assign at "l[j] = c" vrfEntryHandled = c
+//vc:  assign after "s.markNeeded(c.sub)" vrfEntryHandled = c
+//vc:  invariant[C07] 4 "for _, c := range l" @keptOrProtected rangeindex >= 0 ==> vrfEntryHandled == vrfEntryAtHand
